@@ -295,7 +295,8 @@ def _eval_dont_cares(
                 assignment[inputs[idx]] = False
                 idx -= 1
             assignment[inputs[idx]] = True
-        for gate, value in circuit.evaluate_circuit(assignment).items():
+        # every gate is needed, also those that no circuit output reads
+        for gate, value in circuit.evaluate_full_circuit(assignment).items():
             if value != Undefined:
                 truth_table[gate].append(int(tp.cast(bool, value)))
 
